@@ -179,8 +179,26 @@ def detect(base, cur_inv, cur_txt):
                 if w_ and t_ not in b_adts and w_['kind'] == 'struct' and len(w_['variants']) == 1 and len(w_['variants'][0][1]) == 1:
                     return w_['variants'][0][1][0][1]
                 return t_
-            for (bn, bt), (cn, ct) in zip(bf, cf):
+            # the one field of this type whose type changed from a foreign type to a new local struct, every other field being what it was:
+            # the same field, now of a hand-written stand-in for that type (e.g. `Range<usize>` -> a local `{ start, end }`); what the
+            # stand-in means is left to the rules that read it (they fail closed on field names they do not know)
+            retyped = [i_ for i_, ((bn_, bt_), (cn_, ct_)) in enumerate(zip(bf, cf)) if bt_ != _sub(_subpaths(ct_, paths), list(ren.items()))]
+            standin = None
+            if len(retyped) == 1:
+                (bn_, bt_), (cn_, ct_) = bf[retyped[0]], cf[retyped[0]]
+                w_ = cur_inv['adts'].get(strip_generics(ct_))
+                if w_ and strip_generics(ct_) not in b_adts and w_['kind'] == 'struct' and strip_generics(bt_) not in b_adts and not strip_generics(bt_).startswith(('bool', 'usize', 'u', 'i')) and \
+                        all(bn2 == cn2 for j_, ((bn2, _), (cn2, _)) in enumerate(zip(bf, cf)) if j_ != retyped[0]):
+                    standin = retyped[0]
+            for fi_, ((bn, bt), (cn, ct)) in enumerate(zip(bf, cf)):
                 ctn = _sub(_subpaths(ct, paths), list(ren.items()))
+                if fi_ == standin and bn != cn and bn not in [x for x, _ in cf]:
+                    if cn in vocab or not IDENT.fullmatch(cn) or not IDENT.fullmatch(bn):
+                        structured.append((p, cn, bn))
+                    else:
+                        accept([(cn, bn)], 'field of %s at the same position, retyped from %s to the new local struct %s' % (op, bt, ct))
+                    log.append('field %s of %s: %s -> %s (a local stand-in for the foreign type)' % (bn, op, bt, ct))
+                    continue
                 fe_ = cur_inv['adts'].get(ct)
                 if bt == 'bool' and fe_ and ct not in b_adts and fe_['kind'] == 'enum' and len(fe_['variants']) == 2 and all(not fs_ for _, fs_ in fe_['variants']) and \
                         (bn == cn or bn not in [x for x, _ in cf]):
